@@ -535,6 +535,7 @@ type Contract struct {
 	ParamNames []string // functype-derived contracts: the type's parameter names, bound by position
 	CopyFamily bool // a DeepCopy method: contract synthesised from the type declaration (C18)
 	Fresh    bool   // writes only memory allocated in its own activation (checked: frame obligations)
+	Expand   []string // callees whose bodies are executed at this function's call sites although they have a contract
 	RoleKey  string // the key as written when the contract is bound by role (Parent@Role)
 	AtCalls  []AtCall // at-call "key" label: expr - checked in the state right before every call to key made while executing this function
 	Traced   bool     // calls to this function are recorded as ghost facts called!key(args), usable as called("key", args...) in callers' contracts
@@ -591,7 +592,7 @@ func (cs *ContractSet) LoadContractText(text, path, pkgName string) error {
 		}
 		switch first {
 		case "spec", "axiom", "lemma", "func", "functype", "fieldfn", "assume-contract", "requires", "assumes", "ensures", "invariant", "ghost", "decreases",
-			"modifies", "keeps", "traced", "nopanic", "pure", "inline", "loop", "inlined-loop", "property", "fresh", "copyof", "callbacks-modify-nothing", "witness", "at-call":
+			"modifies", "keeps", "traced", "nopanic", "pure", "inline", "loop", "inlined-loop", "property", "fresh", "copyof", "callbacks-modify-nothing", "witness", "at-call", "expand":
 			items = append(items, t)
 			lineNo = append(lineNo, i+1)
 		default:
@@ -823,6 +824,12 @@ func (cs *ContractSet) LoadContractText(text, path, pkgName string) error {
 				cur.Inline = true
 			case "traced":
 				cur.Traced = true
+			case "expand":
+				for _, k := range splitTop(rest, ',') {
+					if k = strings.Trim(strings.TrimSpace(k), "\""); k != "" {
+						cur.Expand = append(cur.Expand, k)
+					}
+				}
 			case "at-call":
 				r := strings.TrimSpace(rest)
 				if !strings.HasPrefix(r, "\"") || strings.Index(r[1:], "\"") < 0 {
